@@ -451,14 +451,29 @@ func c15GenDir(r *rand.Rand) c15Case {
 	return c
 }
 
+// Generate; VERIF_C15_KINDS=match,files restricts the kinds (development aid: deep runs of one kind)
 func (p *c15) Generate(r *rand.Rand, i int) any {
-	switch k := r.Intn(10); {
+	if only := os.Getenv("VERIF_C15_KINDS"); only != "" {
+		for {
+			c := p.generate(r)
+			if strings.Contains(","+only+",", ","+c.(c15Case).Kind+",") {
+				return c
+			}
+		}
+	}
+	return p.generate(r)
+}
+
+func (p *c15) generate(r *rand.Rand) any {
+	switch k := r.Intn(12); {
 	case k < 5:
 		return c15GenRt(r)
 	case k < 7:
 		return c15GenFiles(r)
-	default:
+	case k < 10:
 		return c15GenDir(r)
+	default:
+		return c15GenMatch(r)
 	}
 }
 
